@@ -64,7 +64,7 @@ def gen_cases(ctx):
              "kclass": kclass, "via_layer": bool(rng.rand() < .15), "seed": int(rng.randint(2**31 - 1))}
     else:
       rows = int(rng.choice([2, 3, 4, 5, 8]))
-      kclass = str(rng.choice(["gauss", "big", "ints", "const", "index_linear", "index_quadratic"]))
+      kclass = str(rng.choice(["gauss", "big", "ints", "const", "index_linear", "index_quadratic", "hugebias"]))
       yield {"kind": kind, "rows": rows, "units": units, "l1": amt(), "l2": amt(), "cyclic": bool(rng.rand() < .4),
              "kclass": kclass, "via_layer": bool(rng.rand() < .15), "seed": int(rng.randint(2**31 - 1))}
 
@@ -113,6 +113,10 @@ def _pwl_kernel(rng, case):
   else:
     outs = rng.normal(size=(rows, units))
   k = np.concatenate([outs[:1], np.diff(outs, axis=0)], axis=0)
+  if kc == "hugebias":
+    # keypoint outputs far from zero with ordinary increments: the PWL regularizers are functions of the increments only
+    # (the first kernel row, the bias, cancels in every difference), so their value must not degrade with the bias
+    k[0] += rng.choice([3e6, -3e6, 4e4], size=units)
   return k.astype(np.float32)
 
 
@@ -129,7 +133,9 @@ def pwl_penalty(kind, k, l1, l2, cyclic):
     for _ in range(order):
       d = np.diff(d, axis=0)
   val = l1 * np.abs(d).sum() + l2 * (d ** 2).sum()
-  S = float(np.abs(outs).max()) if outs.size else 0.0
+  # rounding scale: the increments (kernel rows 1..) and their running sums - not the bias, which no difference contains
+  inc = np.asarray(k, dtype=np.float64)[1:]
+  S = float(max(np.abs(np.cumsum(inc, axis=0)).max(), np.abs(inc).max())) if inc.size else 0.0
   nterm = d.size
   c = 2 ** order
   U = l1 * nterm * c * S + l2 * nterm * (c * S) ** 2
